@@ -294,7 +294,8 @@ def _impl_path(sess):
                 if e.cond is not None:
                     # the successor path still knows the candidates of every registered calldata
                     cand = e.path.concretization.candidates
-                    keeps = all(any(k.eq(d.size_symbol) for k in cand) for d, _ in regs)
+                    me = e.cond.arg(0) if not isinstance(e.cond, str) and e.cond.num_args() == 2 else None
+                    keeps = all(any(k.eq(d.size_symbol) for k in cand) for d, _ in regs if me is None or not d.size_symbol.eq(me))
                 brs.append([_cond(e.cond) if not isinstance(e.cond, str) else ["?", e.cond], [_describe(v) for v in e.st.pushed], e.advanced]
                            + ([] if keeps in (None, True) else ["successor lost candidates"]))
         except Exception as e:  # noqa: BLE001
@@ -406,7 +407,7 @@ def _impl_cheat(sess):
     results = create_calldata_generic(test_ex, sevm, "Target")
     live = [i for i, f in enumerate(sess["funs"]) if not f["view"]]
     if len(results) != 2 + len(live):
-        obs["error"] = f"createCalldata returned {len(results)} calldata for {len(live)} non-view functions"
+        obs["error"] = f"createCalldata returned {len(results) - 2} function calldata for {len(live)} non-view functions"
         return obs
     obs["events"] = [["skip", 2]] + [["cd", i] for i in live] + [["extend"]]
     obs["next"] = test_ex.cnts["symbol"] + 1
@@ -566,8 +567,10 @@ def check_spec(sess, obs):
         d = obs["regs"][j]
         want = [[[d[5], v], [["const", v]], 1] for v in d[1]]
         if brs != want:
+            shared = brs == [[None, [["const", val]], 1]]
             out.append(("failing-input", f"after one successor of a path fixed the length of {d[0]!r} to {val}, the path it branched from reads the size symbol as "
-                        f"{str(brs)[:160]} instead of branching over {d[1]} (sibling paths share their concretization)", {"kind": "calldataload-branches", "where": "sibling"}))
+                        f"{str(brs)[:160]} instead of branching over {d[1]}" + (" (sibling paths share their concretization)" if shared else ""),
+                        {"kind": "calldataload-branches", "where": "sibling" if shared else "path"}))
             return out
     for c in obs["cds"]:
         fs = sig_string(sess["funs"][c["fun"]], c["fun"])
